@@ -123,7 +123,7 @@ type Evidence struct {
 // classes whose violation shows as a panic or a hang of the real function (what the replay harness observes)
 var replayable = map[string]bool{"idx": true, "slice": true, "nil": true, "div": true, "make": true, "typeassert": true, "mapnil": true, "panic": true, "pre": true, "dec": true, "reset": true}
 
-var contractClasses = map[string]bool{"pre": false, "post": true, "inv-entry": true, "inv-pres": true, "frame": true, "assert": true, "cover": true, "typestate": true, "typestate-err": true, "init": true, "reset": true, "recover": true, "subtype": true, "lemma": true, "frame-in": true, "frame-glob": true, "cap": true, "alloc": true}
+var contractClasses = map[string]bool{"pre": false, "post": true, "inv-entry": true, "inv-pres": true, "frame": true, "assert": true, "cover": true, "typestate": true, "typestate-err": true, "init": true, "reset": true, "recover": true, "subtype": true, "lemma": true, "frame-in": true, "frame-glob": true, "frame-ro": true, "cap": true, "alloc": true, "progress": true}
 
 func checkCmd(args []string) {
 	fs := flag.NewFlagSet("check", flag.ExitOnError)
@@ -455,7 +455,7 @@ func checkCmd(args []string) {
 		case ledger.proved[o.Name] && !(o.Class == "cover" && o.Result != "refuted"):
 			p := writeReplay(o, rc, "obligation discharged on the pinned tree and fails now")
 			violations = append(violations, fmt.Sprintf("VIOLATION property=%s replay=%s no-failing-input-found", *prop, p))
-		case o.Class == "cover" && o.Result != "refuted":
+		case o.Class == "cover" && (o.Result != "refuted" || !ledger.proved[o.Name]):
 			// the vacuity guard only speaks when the assumptions are shown inconsistent (unsat); a solver that
 			// gives up on the satisfiability query says nothing
 			undecided = append(undecided, o.Name)
@@ -560,7 +560,9 @@ func checkCmd(args []string) {
 	}
 	sort.Strings(unprovedNow)
 	cov := map[string]interface{}{
-		"obligations":              nObl - len(knownLines) - len(unprovedNow),
+		// claimed obligations of this run: everything generated that is neither a known finding, nor listed as not
+		// claimed, nor a new obligation the run could not decide (those are listed under undecided_new)
+		"obligations":              nProved + len(violations),
 		"discharged":               nProved,
 		"checker_cmd":              fmt.Sprintf("bin/govc check -property %s -tier %s  (VCs from go/ssa of /repo's working tree; solvers z3-new 5.1.0, z3 4.8.12, cvc5 1.0)", *prop, *tier),
 		"trusted_base":             trustedBase(),
@@ -590,7 +592,7 @@ func checkCmd(args []string) {
 		"technique":                sc.Technique,
 	}
 	ev := Evidence{PropertyID: *prop, Tier: *tier, Seed: seed, Level: "proof", Coverage: cov, Assumptions: assumptions(), WallS: time.Since(t0).Seconds(), Violations: len(violations)}
-	if !*update {
+	if !*update && *only == "" {
 		// evidence is written by registered runs only (a ledger update also solves the obligations that are not
 		// claimed, so its counts do not describe a check run)
 		os.MkdirAll(filepath.Join(*vdir, "evidence"), 0755)
@@ -647,10 +649,16 @@ func contractsApplied(e *Engine, assumed bool) []string {
 	return r
 }
 
-var retIdxRe = regexp.MustCompile(`(/ret|:return|_ret|/ret)\d+$`)
-
-// retFamily strips the return-statement ordinal from an obligation name.
-func retFamily(name string) string { return retIdxRe.ReplaceAllString(name, "$1*") }
+// retFamily strips the return-statement label from an obligation name.
+func retFamily(name string) string {
+	if i := strings.Index(name, "/ret:"); i >= 0 {
+		return name[:i] + "/ret:*"
+	}
+	if i := strings.Index(name, "#cover:ret:"); i >= 0 {
+		return name[:i] + "#cover:ret:*"
+	}
+	return name
+}
 
 // entryPreconditions lists the requires clauses of functions that have no caller inside the scope of this run:
 // nothing in the run establishes them, so they are assumptions about the state the function is entered in.
